@@ -190,6 +190,8 @@ def run(ctx):
     resulthistory.replay(ctx, ["interp1d:cspline", "interp1d:linear", "squad:simpson", "squad:cspline"], "interp")
     from vlib import layoutinv
     layoutinv.replay(ctx, ["interp1d:cspline", "interp1d:linear"], "interp")
+    from vlib import bufferreuse
+    bufferreuse.replay(ctx, ["interp1d-instance:cspline", "interp1d-instance:cspline-natural", "interp1d-instance:linear", "interp1d:cspline"], "interp")
     # ---- batched sample positions (every row its own grid) and batched queries: row by row like the 1-D interpolant
     gb = torch.Generator().manual_seed(60 + ctx.seed)
     xsb = torch.sort(torch.rand(2, 6, generator=gb, dtype=DT), dim=-1)[0]
